@@ -54,6 +54,8 @@ def run(prog, chk):
     emission_algebra(prog, chk)
     extraction_algebra(prog, chk)
     shape_pipeline(prog, chk)
+    from props import geomalg as _g
+    _g.check(prog, chk, "C11", floor=20)  # the box primitives the constraint algebra is written in
     from props import strops
     strops.check_for(prog, chk, "C11")  # A14.str-ops: how this property's strings are cut up is a reviewed, frozen inventory
 
